@@ -202,7 +202,9 @@ EvalCond(t, fr, c, ph) ==
     ELSE /\ PushOn(t, [fr EXCEPT !.c = c, !.sub = "wait"], UsrFrame("cond", c, OOfPh(fr, ph), AOf(fr, ph), RoleOf(ph), nx + 1, fr.f))
          /\ reg' = [reg EXCEPT ![t] = NoOut]
          /\ nx' = nx + 1
-         /\ Emit(Ev("cond.in", t, c, OOfPh(fr, ph), AOf(fr, ph), 0, "", OldOf(fr, ph), ResOf(fr, ph), ph, FALSE))
+         \* (a condition may leave OLD out of its parameters although the function has snapshots: noold)
+         /\ Emit(Ev("cond.in", t, c, OOfPh(fr, ph), AOf(fr, ph), 0, "", IF CON(c).noold THEN <<>> ELSE OldOf(fr, ph),
+                    ResOf(fr, ph), ph, FALSE))
          /\ Unch_ip /\ UNCHANGED <<prog, ost, status, ns>>
 
 \* the error of contract fr.c is `err`: preconditions remember it and try the next group; the others raise it
@@ -240,7 +242,8 @@ CondPhase(t, fr, ph, L, next) ==
                        /\ PushOn(t, [fr EXCEPT !.sub = "reeval"], UsrFrame("cond", c, OOfPh(fr, ph), AOf(fr, ph), RoleOf(ph), nx + 1, fr.f))
                        /\ reg' = [reg EXCEPT ![t] = NoOut]
                        /\ nx' = nx + 1
-                       /\ Emit(Ev("cond.in", t, c, OOfPh(fr, ph), AOf(fr, ph), 0, "", OldOf(fr, ph), ResOf(fr, ph), "reeval", FALSE))
+                       /\ Emit(Ev("cond.in", t, c, OOfPh(fr, ph), AOf(fr, ph), 0, "", IF CON(c).noold THEN <<>> ELSE OldOf(fr, ph),
+                                  ResOf(fr, ph), "reeval", FALSE))
                        /\ Unch_ip /\ UNCHANGED <<prog, ost, status, ns>>
                   ELSE Goto(t, [fr EXCEPT !.sub = "repr"])
            [] CON(c).err = "inst" -> ErrDone(t, fr, ph, ErrorOf(c))
